@@ -36,8 +36,9 @@ Print Assumptions C16_refuted.
    5. sorted(seq, key=f, reverse=rv), for EVERY list of (key, element) pairs of any length and both directions, with the
       comparison operator and the post-processing gotrans read off builtins.go: the result is a permutation of the input,
       ordered by key in the requested direction, and the elements of EQUAL key stand in their input order - CPython's
-      stable sort, reverse=True included (insertionSortLessFunc, i.e. sort.Slice up to 12 elements); and these three
-      properties leave no other result: every list that has them IS the list sorted() returns;
+      stable sort, reverse=True included; these three properties leave no other result: every list that has them IS the list
+      sorted() returns (so the model may compute it by insertion sort although sort.SliceStable merges blocks); and, the
+      source calling sort.SliceStable (/repo 62283f2), the model covers lists of EVERY length (with sort.Slice: 12);
    6. d | e, for ALL operands and states, as the steps gotrans translated from pyDict.Operator: the result is a dict that did
       not exist before, no list and no existing dict is written, a later store into the result is invisible in every older
       dict and vice versa; and these steps are the union of the evaluator (apply_bin) on every dict without duplicate keys. *)
@@ -73,6 +74,8 @@ Definition C16_partial_statement : Prop :=
         Permutation r' l -> StronglySorted (in_order rv) r' ->
         (forall k, filter (fun x => key_eqb (fst x) k) r' = filter (fun x => key_eqb (fst x) k) l) ->
         r' = r)
+  /\ (forall keys rv, same_kind keys = true ->
+        exists r, asp_sorted_perm keys rv = Some (map (@snd _ _) r) /\ asp_sorted rv (tag keys) = Some r)
   /\ (forall i j st v st',
         union_translated i j st = Ok (v, st') ->
         v = VDict (length (dicts st)) /\ arrays st' = arrays st
@@ -89,7 +92,7 @@ Proof.
         (conj (@chain_class_none_safe vexpr)
         (conj (@groupings_agree vexpr value)
         (conj int_ops_agree (conj list_add_always_fresh (conj int_chain_program_agrees
-        (conj asp_sorted_stable (conj asp_sorted_is_the_stable_sort (conj dict_union_always_fresh (conj dict_union_independent union_translated_is_apply_bin))))))))))).
+        (conj asp_sorted_stable (conj asp_sorted_is_the_stable_sort (conj asp_sorted_perm_all_lengths (conj dict_union_always_fresh (conj dict_union_independent union_translated_is_apply_bin)))))))))))).
 Qed.
 Print Assumptions C16_partial.
 
